@@ -23,16 +23,17 @@ type RenderContext struct {
 	parentBlocks       map[string][]Node // Original block content from parent templates
 	macros             map[string]Node
 	parent             *RenderContext
-	engine             *Engine                 // Reference to engine for loading templates
-	extending          bool                    // Whether this template extends another
-	currentBlock       *BlockNode              // Current block being rendered (for parent() function)
-	blockDefs          map[string][]*BlockNode // Definitions of each block along the extends chain, most derived first
-	currentDefs        []*BlockNode            // Definition chain of the block being rendered (for parent() function)
-	currentLevel       int                     // Index into currentDefs of the definition being rendered
-	blockDepth         int                     // Number of block renderings in progress (guards against recursive blocks)
-	inParentCall       bool                    // Flag to indicate if we're currently rendering a parent() call
-	sandboxed          bool                    // Flag indicating if this context is sandboxed
-	lastLoadedTemplate *Template               // The template that created this context (for resolving relative paths)
+	engine             *Engine                  // Reference to engine for loading templates
+	extending          bool                     // Whether this template extends another
+	currentBlock       *BlockNode               // Current block being rendered (for parent() function)
+	blockDefs          map[string][]*BlockNode  // Definitions of each block along the extends chain, most derived first
+	currentDefs        []*BlockNode             // Definition chain of the block being rendered (for parent() function)
+	currentLevel       int                      // Index into currentDefs of the definition being rendered
+	blockDepth         int                      // Number of block renderings in progress (guards against recursive blocks)
+	blockOwners        map[*BlockNode]*Template // Template each registered block definition was written in
+	inParentCall       bool                     // Flag to indicate if we're currently rendering a parent() call
+	sandboxed          bool                     // Flag indicating if this context is sandboxed
+	lastLoadedTemplate *Template                // The template that created this context (for resolving relative paths)
 }
 
 // contextMapPool is a pool for the maps used in RenderContext
@@ -115,6 +116,7 @@ func NewRenderContext(env *Environment, context map[string]interface{}, engine *
 	ctx.extending = false
 	ctx.currentBlock = nil
 	ctx.blockDefs = nil
+	ctx.blockOwners = nil
 	ctx.currentDefs = nil
 	ctx.currentLevel = 0
 	ctx.blockDepth = 0
@@ -139,8 +141,10 @@ func (ctx *RenderContext) Release() {
 	ctx.engine = nil
 	ctx.currentBlock = nil
 	ctx.blockDefs = nil
+	ctx.blockOwners = nil
 	ctx.currentDefs = nil
 	ctx.currentLevel = 0
+	ctx.lastLoadedTemplate = nil
 
 	// Save the maps so we can return them to their respective pools
 	contextMap := ctx.context
@@ -338,6 +342,7 @@ func (ctx *RenderContext) Clone() *RenderContext {
 	newCtx.extending = false
 	newCtx.currentBlock = nil
 	newCtx.blockDefs = nil
+	newCtx.blockOwners = nil
 	newCtx.currentDefs = nil
 	newCtx.currentLevel = 0
 	newCtx.blockDepth = 0
